@@ -2389,12 +2389,12 @@ impl Melda {
                 .ok_or_else(|| anyhow!("packs_not_an_array"))?;
             // Collect identifiers
             if !packs.is_empty() {
-                b_packs = Some(
-                    packs
-                        .iter()
-                        .map(|p| p.as_str().unwrap().to_string())
-                        .collect(),
-                );
+                let mut ps = BTreeSet::new();
+                for p in packs {
+                    let s = p.as_str().ok_or_else(|| anyhow!("pack_not_string"))?;
+                    ps.insert(s.to_string());
+                }
+                b_packs = Some(ps);
             }
         }
 
